@@ -98,6 +98,11 @@ CHECKS = {
    note="Trusted: Coq kernel; the standard library's real-number axioms listed by Print Assumptions (ClassicalDedekindReals.sig_forall_dec, sig_not_dec, Classical_Prop.classic, functional_extensionality_dep) via Coquelicot; for the interval goals additionally the primitive-float axioms of Coq Interval; Python harness. Partial: QUADPACK convergence and the overflow guard are explored, not proved.",
    technique="Coq/Coquelicot proof (FTC, substitution) + exact shape correspondence + interval-arithmetic closed-form checks + direct-integration search",
    design="3/C12"),
+ "C15": dict(
+   text="Theorems (Coq): in exact (rational) arithmetic, for every shift tau: the argument at which a shifted user function is evaluated, the real step coordinate of a shifted float time relative to the shifted start, and the shift of every label are unchanged / exactly tau (shift_invariance_eval, shift_invariance_step, shift_invariance_label); in binary64 (primitive floats), on the lattice dt = a/100, start as in C13, tau in {+-0.37, 1.234, -5.5}, steps 0..100 and offsets {0, +-0.3} dt, the step assigned to the shifted time equals the step assigned to the original time and equals k (shift_lattice, exhaustive vm_compute sweep lifted generically). Tied to /repo bit-for-bit: the times at which a recording Hamiltonian is evaluated through Tempo and compute_dynamics (start + step*dt + dt/4, + 3dt/4) and the steps float control times are assigned to before/after a shift; searched: shifted vs unshifted runs of Tempo, PtTempo+compute_dynamics, MeanFieldTempo, compute_dynamics_with_field, compute_correlations and float-time controls with time-dependent Hamiltonian, rates, Lindblad operators and field equation.",
+   note="Trusted: Coq kernel/vm_compute + primitive floats; Model/TimeGrid.v, Model/Control.v, Model/Corr.v; Python harness. The inventory of places where explicit times enter is established by reading the code and by the bit-exact correspondences of C13, C09, C18, C07; in binary64 covariance holds up to rounding (the float statement is a finite-lattice statement).",
+   technique="Coq proof (field identities on Q; exhaustive primitive-float lattice sweep) + bit-exact evaluation-time correspondence + shifted-run search",
+   design="3/C15"),
 }
 
 NOT_YET = {}
